@@ -35,6 +35,18 @@ func (x *inst) applyMgmt(ev string, f []string) {
 			m.Mode = "CLOSED"
 			m.Dirty = false
 		}
+	case "Delete":
+		// Server.Delete closes the replica and removes its files; terminal event of a path (the held-hole runs use it:
+		// it closes the chain files)
+		err := x.guard(ev, func() error { return x.srv.Delete() })
+		x.observe("%s -> %v", ev, err != nil)
+		if err != nil {
+			x.violate("delete-failed", "delete-failed", err.Error())
+			return
+		}
+		m.Open = false
+		m.Mode = "CLOSED"
+		m.Deleted = true
 	case "Open":
 		err := x.guard(ev, func() error { return x.srv.Open() })
 		x.observe("%s -> %v", ev, err != nil)
